@@ -841,3 +841,22 @@ def x1_index_spaces(ctx):
     if maps is not None:
         vol = au.params(fnb)[0]
         scan(xb, fnb, BORDER, lambda t: isinstance(t, ast.Name) and t.id == vol, lambda b: sx.is_special(b, "$obj") and b.id == maps[0])
+
+
+
+# ----------------------------------------------------------------------- generic families (msa/rules/generic.py)
+_run_specific = run
+
+
+def run(ctx):
+    _run_specific(ctx)
+    from ..rules import generic
+    generic.apply(ctx, "C03", stale_modules=())
+
+
+def _generic_rule_texts():
+    from ..rules import generic
+    return generic.rule_texts("C03", stale=False)
+
+
+RULES.update(_generic_rule_texts())
